@@ -22,6 +22,7 @@ def mp_pow(base, expo):
 def run(ctx):
     from mpmath import mp, mpf, gamma as G, pi
     mp.dps = 40
+    rng = ctx.rng
     ss = S.generate(ctx, 16 if ctx.quick else 120, 3 if ctx.quick else 6, max_e=6 if ctx.quick else 7,
                     max_loops=3 if ctx.quick else 4, routings_per_graph=1, kinds=("uniform", "uniform", "corner"), scales=(1, 1, 1, Fraction(1, 2 ** 33), 2 ** 30))
     # exact integer degrees of divergence and even dimensions (integral exponents of powf), >= 4 loops with shifts on several loops
@@ -30,6 +31,22 @@ def run(ctx):
     # a vertex with two external legs is listed twice in `externals`
     ss += S.generate(ctx, 5 if ctx.quick else 25, 3, max_e=5, max_loops=3, routings_per_graph=1, kinds=("uniform",), ext_modes=["dup"])
     ss += S.generate(ctx, 3 if ctx.quick else 12, 3, max_e=6, max_loops=5, routings_per_graph=1, kinds=("uniform",), names=["banana5", "banana6"])
+    # integral propagator powers 3, 4, 5 (Gamma(weight) = 2, 6, 24), alone and next to non-integral ones
+    from .. import gen
+    icases = []
+    for _ in range(10 if ctx.quick else 50):
+        name = rng.choice(["bubble", "triangle", "sunrise", "box", "bubble_leg", "double_triangle"])
+        edges, _, _ = gen.relabel(rng, list(gen.CATALOGUE[name]))
+        n = len(edges); D = rng.randint(2, 6)
+        w = [float(rng.choice([3, 3, 4, 5, 1, 2])) if rng.random() < 0.6 else rng.choice([0.75, 1.5, 2.5, 1.25]) for _ in range(n)]
+        if not any(x >= 3 and x == int(x) for x in w):
+            w[rng.randrange(n)] = 3.0
+        massive = [rng.random() < 0.6 for _ in range(n)]
+        ext = sorted(set(v for e in edges for v in e))
+        dod, Lf, table = oracle.table_oracle(edges, w, massive, ext, D)
+        if dod > 0 and not oracle.divergent_subsets(table):
+            icases.append(dict(edges=edges, weights=w, massive=massive, ext=ext, D=D, table=table, dod=dod, loops=Lf, accepted=True, name="integer_weights"))
+    ss += S.samples_for_cases(ctx, icases, 2)
     S.run(ss)
     SC.generic_scalar_guard(ctx, ss[:: 5], k=6)
     SC.corr_sample(ctx, ss, fields=("uTrop", "vTrop", "jac"))
@@ -51,6 +68,7 @@ def run(ctx):
         if b2f(a["uTrop"]) != 1.0 or b2f(a["vTrop"]) != 1.0:
             ctx.violation("returned u_trop / v_trop are not 1", S.small_req(s), observed=[b2f(a["uTrop"]), b2f(a["vTrop"])]); continue
         if not SC.finite([a["u"], a["v"], a["jac"], xpre_b]) or b2f(a["u"]) <= 0 or b2f(a["v"]) <= 0:
+            SC.nonfinite_verdict(ctx, s)
             ctx.count("nonfinite_or_nonpositive_skipped"); continue
         u, v, jac = Fraction(b2f(a["u"])), Fraction(b2f(a["v"])), Fraction(b2f(a["jac"]))
         dod = Fraction(b2f(s["built"]["dod"])); halfD = Fraction(D, 2)
